@@ -12,9 +12,12 @@ import subprocess
 import sys
 
 
-def _describe(src, optimize, wasm):
-    """one compilation -> plain data (runs in the forked child)"""
+def _describe(src, optimize, wasm, cwd=None):
+    """one compilation -> plain data (runs in the forked child); `cwd`: directory the compilation runs in
+    (imports are resolved relative to it)"""
     from . import adapter
+    if cwd is not None:
+        os.chdir(cwd)
     c = adapter.compile_src(src, optimize=optimize, wasm=wasm)
     return describe_compiled(c, wasm)
 
@@ -102,7 +105,7 @@ class Pristine:
                                   stdout=subprocess.PIPE, env=e, cwd=here)
 
     def compile_many(self, reqs):
-        """reqs: list of (src, optimize, wasm); each is compiled in ONE fresh fork,
+        """reqs: list of (src, optimize, wasm[, cwd]); each is compiled in ONE fresh fork,
         in the given order (so a list of length 1 is a pristine compilation)"""
         _send(self.p.stdin.fileno(), list(reqs))
         res = _recv(self.p.stdout.fileno())
